@@ -6,6 +6,7 @@ import collections
 import os
 import shutil
 import subprocess
+import sys
 import tempfile
 
 from core import sx, unsx
@@ -313,36 +314,106 @@ SELF_PRINT = {
 }
 
 
+# commands that really run (harmless, deterministic, stdout only): literal tabs in data and in indentation, `<<-`
+# here-documents whose terminator is tab-indented, nested blocks
+EXEC_SNIPPETS = [
+    "printf '%s\\n' 'a\tb'",
+    "cat <<-END\n\tbody with\ttab\n\tEND\necho after",
+    "cat <<-\"END\"\n\t\t$HOME `id`\n\tEND\necho after2",
+    "cat <<END\n  spaced\tbody\nEND\necho after3",
+    "printf 'x\\ty\\n' | cut -d'\t' -f2",
+    "echo \"tab:[\t]\"",
+    "x='\t'; echo \"${#x}\"",
+    "printf 'a\\tb\\n' | tr '\t' ':'",
+    "if true; then\n\techo nested\n\tif true; then\n\t\techo deeper\n\tfi\nfi",
+    "echo EOF\necho EOF1",
+    "for i in 1 2; do\n    echo \"i=$i\t.\"\ndone",
+    "echo 'single \t quoted'  \t# trailing comment",
+]
+
+BASH_CORPUS = [
+    ("exec", "\n\tcat <<-END\n\t\tbody\n\t\tEND\n\techo after\n"),
+    ("exec", "\n    printf '%s\\n' 'a\tb'\n    printf 'x\\ty\\n' | cut -d'\t' -f2\n"),
+    ("exec", "echo first\n    echo second\n    echo \"third\t.\""),
+    ("default", "cat \"$0\"\n    exit 0\n    indented\tjunk\n    EOF"),
+    ("cat", "#!/bin/cat\n\tkeep\tthese\ttabs\n  and these spaces\n\t\tEOF"),
+    ("sh", "\t#!/bin/sh\n\tcat \"$0\"\n\texit 0\n\t\ttab\tinside\n\tEOF"),
+]
+
+
+def reference_text(text):
+    """The text a script task must run, computed without redun: dedent, strip, default shell unless a shebang."""
+    import textwrap
+    body = textwrap.dedent(text).strip()
+    return body if body.startswith("#!") else "#!/usr/bin/env bash\nset -exo pipefail\n" + body
+
+
 def gen_runnable(rng):
-    """A command that prints its own file and exits 0; the rest is never executed by the interpreter."""
-    mode = rng.choice(["cat", "cat", "default", "default", "sh", "bash", "python3"])
-    sheb, head = SELF_PRINT[mode]
-    if mode == "python3":
-        tail = [rng.choice(["EOF", "EOF1", "EOF2", "EOF3", "# EOF", "#'\"$x`y`", "EOF ", "pass", "x = '$HOME'", "", "y = \"`z`\"", "EOF  # \\"])
-                for _ in range(rng.randrange(0, 8))]
+    """Either a command that prints its own file and exits 0 (the rest is never executed by the interpreter), or
+    (mode 'exec') a command that really runs and whose output is compared with running the reference text directly."""
+    mode = rng.choice(["cat", "cat", "default", "default", "sh", "bash", "python3", "exec", "exec", "exec"])
+    if mode == "exec":
+        lines = "\n".join(rng.sample(EXEC_SNIPPETS, rng.choice([1, 2, 3]))).split("\n")
     else:
-        tail = gen_lines(rng, rng.choice([0, 1, 2, 3, 5, 8]))
-        if rng.random() < 0.15:
-            n = rng.randrange(2, 13)
-            chain = ["EOF"] + ["EOF%d" % i for i in range(1, n)]
-            rng.shuffle(chain)
-            tail += chain
-    lines = ([sheb] if sheb else []) + head + tail
-    ind = rng.choice(["", "", "    ", "\t"])
-    lines = [ind + ln if ln.strip(" \t") else ln for ln in lines]
-    if rng.random() < 0.4:
-        lines = [""] + lines + [rng.choice(["", "    "])]
-    text = "\n".join(lines)
-    return mode, text
+        sheb, head = SELF_PRINT[mode]
+        if mode == "python3":
+            tail = [rng.choice(["EOF", "EOF1", "EOF2", "EOF3", "# EOF", "#'\"$x`y`", "EOF ", "pass", "x = '$HOME'", "", "y = \"`z`\"", "EOF  # \\",
+                                "t = '\t'  # tab"])
+                    for _ in range(rng.randrange(0, 8))]
+        else:
+            tail = gen_lines(rng, rng.choice([0, 1, 2, 3, 5, 8]))
+            if rng.random() < 0.15:
+                n = rng.randrange(2, 13)
+                chain = ["EOF"] + ["EOF%d" % i for i in range(1, n)]
+                rng.shuffle(chain)
+                tail += chain
+        lines = ([sheb] if sheb else []) + head + tail
+    ind = rng.choice(["", "", "    ", "\t", "\t", "\t\t"])
+    k = rng.random()
+    if k < 0.25 and len(lines) > 1 and mode != "python3":
+        # the command starts right after the opening quotes: first line flush, the others indented
+        lines = [lines[0]] + [(ind or "    ") + ln if ln.strip(" \t") else ln for ln in lines[1:]]
+    else:
+        lines = [ind + ln if ln.strip(" \t") else ln for ln in lines]
+        if rng.random() < 0.5:
+            lines = [""] + lines + [rng.choice(["", "    ", "\t"])]
+    return mode, "\n".join(lines)
 
 
-def run_bash(script_text, cwd):
-    path = os.path.join(cwd, "wrapped.sh")
+def run_proc(argv, cwd, timeout=20):
+    """Run with stdin=/dev/null in its own process group; a hang is an outcome ('timeout'), not an infrastructure error."""
+    import signal
+    # the harness interpreter's directory first: `env python3` must not go through a slow version-manager shim
+    env = {"PATH": os.path.dirname(sys.executable) + ":/usr/bin:/bin", "HOME": cwd, "TMPDIR": cwd, "LC_ALL": "C.UTF-8"}
+    p = subprocess.Popen(argv, cwd=cwd, stdin=subprocess.DEVNULL, stdout=subprocess.PIPE, stderr=subprocess.PIPE, env=env,
+                         start_new_session=True)
+    try:
+        so, se = p.communicate(timeout=timeout)
+        return p.returncode, so, se
+    except subprocess.TimeoutExpired:
+        try:
+            os.killpg(p.pid, signal.SIGKILL)
+        except ProcessLookupError:
+            pass
+        so, se = p.communicate()
+        return "timeout", so, se
+
+
+def run_bash(script_text, cwd, name="wrapped.sh", direct=False):
+    path = os.path.join(cwd, name)
     with open(path, "w", encoding="utf-8", newline="") as f:
         f.write(script_text)
-    env = {"PATH": os.environ.get("PATH", "/usr/bin:/bin"), "HOME": cwd, "TMPDIR": cwd, "LC_ALL": "C.UTF-8"}
-    r = subprocess.run(["bash", path], cwd=cwd, stdin=subprocess.DEVNULL, capture_output=True, timeout=30, env=env)
-    return r.returncode, r.stdout, r.stderr
+    if direct:
+        os.chmod(path, 0o755)
+        return run_proc([path], cwd)
+    return run_proc(["bash", path], cwd)
+
+
+def dec(b):
+    try:
+        return b.decode("utf-8")
+    except UnicodeDecodeError:
+        return repr(b)
 
 
 def check_bash(ctx, cases, tmp):
@@ -351,35 +422,53 @@ def check_bash(ctx, cases, tmp):
     for mode, text in cases:
         prep = prepare_command(text)
         wrapped = get_wrapped_command(prep)
-        reqs.append("temp " + sx(wrapped))
-        meta.append((prep, wrapped))
+        reqs += ["temp " + sx(wrapped), "prep " + sx(text)]
+        meta.append((prep, wrapped, reference_text(text)))
     out = ctx.model("C29", reqs)
     from concurrent.futures import ThreadPoolExecutor
 
     def one(iw):
-        d = os.path.join(tmp, "b%d" % iw[0])
+        i, (mode, (prep, wrapped, ref)) = iw
+        d = os.path.join(tmp, "b%d" % i)
         os.mkdir(d)
         try:
-            return run_bash(iw[1], d)
+            r = run_bash(wrapped, d)
+            rr = run_bash(ref, d, name="reference", direct=True) if mode == "exec" else None
+            return r, rr
         finally:
             shutil.rmtree(d, ignore_errors=True)
     with ThreadPoolExecutor(8) as ex:       # results are consumed in case order: deterministic
-        ran = list(ex.map(one, enumerate(w for _, w in meta)))
-    for (mode, text), (prep, wrapped), mo, (rc, so, se) in zip(cases, meta, out, ran):
-        try:
-            got = so.decode("utf-8")
-        except UnicodeDecodeError:
-            got = repr(so)
-        m = unS(mo)
+        ran = list(ex.map(one, enumerate(zip((m for m, _ in cases), meta))))
+    for k, ((mode, text), (prep, wrapped, ref), ((rc, so, se), rr)) in enumerate(zip(cases, meta, ran)):
+        got = dec(so)
+        m_temp, m_prep = unS(out[2 * k]), unS(out[2 * k + 1])
         ctx.case(key=("bash", text), sample={"mode": mode, "text": text[:80]}, kind="bash", bash_mode=mode,
-                 n_lines=min(text.count("\n") + 1, 12))
+                 n_lines=min(text.count("\n") + 1, 12), has_tab="\t" in text, first_line_flush=bool(text) and text[0] not in " \t\n")
         case = {"kind": "bash", "mode": mode, "text": text}
-        if m != got:
+        if m_prep != prep:
+            ctx.mismatch("prepare_command differs from model prepare", case=case, model=m_prep, impl=prep)
+        if mode == "exec":
+            rrc, rso, rse = rr
+            if rrc == "timeout":
+                ctx.note("generator: reference command timed out: %r" % text[:80])
+                continue
+            if (rc, so) != (rrc, rso):
+                what = ("the wrapped command does not terminate (killed after 20 s) although the dedented text run directly does"
+                        if rc == "timeout" else "running the wrapped command gives another exit code / output than running the dedented text directly")
+                ctx.violation("C29-wrapped-hangs" if rc == "timeout" else "C29-wrapped-output-differs", what, case=case,
+                              expected="rc=%r stdout=%r" % (rrc, dec(rso)[:1500]), actual="rc=%r stdout=%r stderr=%r" % (rc, got[:1500], dec(se)[-300:]))
+            continue
+        # self-printing modes: stdout is the file that was executed
+        if m_temp != got:
             ctx.mismatch("bytes written by real bash from the wrapper differ from the model's here-document reader", case=case,
-                         model=m, impl=got if rc == 0 else "rc=%d stdout=%r stderr=%r" % (rc, got[:300], se[-300:]))
-        if rc != 0 or got != prep + "\n":
-            ctx.violation("C29-wrapper-not-byte-exact", "executing get_wrapped_command(cmd) with bash does not run exactly cmd",
-                          case=case, expected=prep + "\n", actual="rc=%d stdout=%r stderr=%r" % (rc, got[:2000], se[-300:]))
+                         model=m_temp, impl=got if rc == 0 else "rc=%r stdout=%r stderr=%r" % (rc, got[:300], dec(se)[-300:]))
+        if m_prep + "\n" != got:
+            ctx.mismatch("executed text differs from the model's strip(dedent(command)) under the default shell / own shebang", case=case,
+                         model=m_prep + "\n", impl=got if rc == 0 else "rc=%r stdout=%r" % (rc, got[:300]))
+        if rc != 0 or got != ref + "\n":
+            ctx.violation("C29-wrapped-hangs" if rc == "timeout" else "C29-wrapper-not-byte-exact",
+                          "executing the wrapped command with bash does not run exactly the dedented command text", case=case,
+                          expected=ref + "\n", actual="rc=%r stdout=%r stderr=%r" % (rc, got[:2000], dec(se)[-300:]))
         want_default = mode == "default"
         if prep.startswith("#!/usr/bin/env bash\nset -exo pipefail\n") != want_default and mode != "bash":
             ctx.violation("C29-default-shell", "default shell prepended to a command with a shebang, or missing without one", case=case,
@@ -752,15 +841,22 @@ def run(ctx):
     tmp = tempfile.mkdtemp(prefix="verif-c29-")
     saved_tempdir = tempfile.tempdir
     tempfile.tempdir = tmp          # script(tempdir=True) calls mkdtemp even when it then raises: keep those inside tmp
+    saved_stdin = os.dup(0)         # commands started by redun's exec_script inherit our stdin: never let them wait on it
+    devnull = os.open(os.devnull, os.O_RDONLY)
+    os.dup2(devnull, 0)
     try:
         texts = list(CORPUS_TEXTS) + [gen_text(rng) for _ in range(ctx.n(1000, 12000))]
         check_texts(ctx, texts)
         bash_cases = [("cat", "#!/bin/cat\n" + t) for t in CORPUS_TEXTS[:ctx.n(12, 40)]]
-        bash_cases += [gen_runnable(rng) for _ in range(ctx.n(50, 500))]
+        bash_cases += list(BASH_CORPUS)
+        bash_cases += [gen_runnable(rng) for _ in range(ctx.n(40, 500))]
         check_bash(ctx, bash_cases, tmp)
         check_scripts(ctx, [gen_script_case(rng) for _ in range(ctx.n(250, 2500))])
         check_e2e(ctx, list(E2E_CORPUS) + [gen_e2e(rng) for _ in range(ctx.n(6, 80))], tmp)
     finally:
+        os.dup2(saved_stdin, 0)
+        os.close(saved_stdin)
+        os.close(devnull)
         tempfile.tempdir = saved_tempdir
         shutil.rmtree(tmp, ignore_errors=True)
 
